@@ -155,6 +155,7 @@ func runCheck(id, tier string, ignoreKnown, verbose bool) int {
 	}
 	work := filepath.Join(vd, "work", id)
 	os.RemoveAll(work)
+	os.RemoveAll(filepath.Join(vd, "replays", id))
 	jobs := runtime.NumCPU()
 	if all {
 		jobs = jobs / 2
